@@ -4,6 +4,7 @@
    Executable definitions only; arrays are lists, matrices are lists of rows. *)
 From Coq Require Import List Arith Bool ZArith Lia.
 Import ListNotations.
+Require Import Base.Corr.
 
 Definition mat (A : Type) := list (list A).
 Definition gather {A} (d : A) (a : list A) (ix : list nat) : list A := map (fun i => nth i a d) ix.
@@ -158,3 +159,60 @@ Definition cube_planes : list (Z * Z * Z * Z) :=
   [(1, 0, 0, 0); (1, 0, 0, 1); (0, 1, 0, 0); (0, 1, 0, 1); (0, 0, 1, 0); (0, 0, 1, 1)]%Z.
 Definition prism_planes : list (Z * Z * Z * Z) :=
   [(0, 0, 1, 0); (0, 0, 1, 1); (0, 1, 0, 0); (1, 0, 0, 0); (1, 1, 0, 1)]%Z.
+
+(* ---- facet carry-over of MeshQuad1.to_meshtri *)
+(* next(dropwhile(lambda s: not np.array_equal(f, s[1]), slots))[0] on the SHARED iterator slots = enumerate(facets.T):
+   returns the number of the first remaining slot equal to f and leaves the iterator behind it; None = StopIteration *)
+Fixpoint scan_one (f : list nat) (slots : list (nat * list nat)) : option (nat * list (nat * list nat)) :=
+  match slots with
+  | [] => None
+  | s :: rest => if nats_same f (snd s) then Some (fst s, rest) else scan_one f rest
+  end.
+Fixpoint scan_all (targets : mat nat) (slots : list (nat * list nat)) : option (list nat) :=
+  match targets with
+  | [] => Some []
+  | f :: fs => match scan_one f slots with
+               | None => None
+               | Some (i, rest) => match scan_all fs rest with None => None | Some l => Some (i :: l) end
+               end
+  end.
+(* MeshQuad1.to_meshtri: boundaries[k] = [next(dropwhile(...))[0] for f in self.facets.T[np.sort(self.boundaries[k])]] *)
+Definition carry_boundary (old_facets new_facets : mat nat) (b : list nat) : option (list nat) :=
+  scan_all (map (fun k => nth k old_facets []) (sort_nat b)) (combine (seq 0 (length new_facets)) new_facets).
+
+
+(* ---- model of Mesh._remove_duplicate_nodes / Mesh.__add__ : np.unique of the coordinate tuples with
+        return_index and return_inverse.  A vertex is its coordinate tuple (list Z after the code's rounding). *)
+Definition key := list Z.
+Fixpoint lexz_ltb (a b : key) : bool :=
+  match a, b with
+  | [], [] => false
+  | [], _ :: _ => true
+  | _ :: _, [] => false
+  | x :: a', y :: b' => (x <? y)%Z || ((x =? y)%Z && lexz_ltb a' b')
+  end.
+Fixpoint insert_key (k : key) (l : list key) : list key :=
+  match l with
+  | [] => [k]
+  | x :: l' => if lexz_ltb k x then k :: l else if zs_eqb k x then l else x :: insert_key k l'
+  end.
+Definition unique_keys (ks : list key) : list key := fold_right insert_key [] ks.
+Fixpoint index_key (k : key) (l : list key) : nat :=
+  match l with
+  | [] => 0
+  | x :: l' => if zs_eqb k x then 0 else S (index_key k l')
+  end.
+(* p[:, ixa], ixb[t] *)
+Definition dedupe_p (p : list key) : list key := let u := unique_keys p in gather [] p (map (fun k => index_key k p) u).
+Definition dedupe_inverse (p : list key) : list nat := let u := unique_keys p in map (fun k => index_key k u) p.
+Definition dedupe_t (p : list key) (t : mat nat) : mat nat := map (map (fun v => nth v (dedupe_inverse p) 0)) t.
+(* Mesh.__add__ : p = hstack(p1, p2); t = hstack(t1, t2 + n1); then remove duplicates *)
+Fixpoint hstack2 (t1 t2 : mat nat) : mat nat :=
+  match t1, t2 with
+  | r1 :: t1', r2 :: t2' => (r1 ++ r2) :: hstack2 t1' t2'
+  | _, _ => []
+  end.
+Definition join_p (p1 p2 : list key) : list key := dedupe_p (p1 ++ p2).
+Definition join_t (p1 p2 : list key) (t1 t2 : mat nat) : mat nat :=
+  dedupe_t (p1 ++ p2) (hstack2 t1 (map (map (fun v => v + length p1)) t2)).
+
